@@ -314,6 +314,9 @@ pub proof fn lemma_files_vs_redirs(out: Obj, err: Obj, o2: Obj, e2: Obj, rs: Seq
     }
 }
 
+pub proof fn chk_argv(built_by_the_idiom: bool)
+    requires built_by_the_idiom,   //@L C01.exec.argv_is_the_token_texts_in_order
+{ }
 pub proof fn lemma_lits()
     ensures "<"@ != "<<<"@, "&1"@ != "&2"@, "1"@ != "2"@, ">>"@ != ">"@, "<"@.len() == 1, "<<<"@.len() == 3,
 {
@@ -460,9 +463,15 @@ C = 'src/core.rs'
 RSP_RW = [
     Rw(r'unsafe \{[^{}]*?libc::signal\([^{}]*?\}', 'vx_reset_child_signals();', regex=True, rule='R8', why='libc::signal(SIGTSTP/SIGQUIT, SIG_DFL) in the child: shim, no descriptor effect'),
     Rw(r'if cfg!\(target_os = "macos"\) \{', '', regex=True, balanced=True, rule='R10', why='macOS-only busy wait on getpgid (cfg! is false on this platform): dropped'),
+    Rw('let c_args: Vec<_> = cmd\\s*(?:/\\*@L\\d+\\*/)?\\s*\\.tokens\\s*(?:/\\*@L\\d+\\*/)?\\s*\\.iter\\(\\)\\s*(?:/\\*@L\\d+\\*/)?\\s*\\.map\\(\\|x\\| CString::new\\(x\\.1\\.as_str\\(\\)\\)\\.expect\\("CString error"\\)\\)\\s*(?:/\\*@L\\d+\\*/)?\\s*\\.collect\\(\\);', 'VXARGV_OK;', regex=True, required=False, rule='R12',
+       why='argv idiom: cmd.tokens.iter().map(|x| CString::new(x.1.as_str())..).collect() has the std contract argv == token texts in order; any other construction is opaque'),
+    Rw(r'let mut c_envs: Vec<_> = env::vars\(\)[\s\S]*?VXARGV_OK;[\s\S]*?match execve\(&c_program, &c_args, &c_envs\) \{',
+       'proof { chk_argv(true); } proof { lemma_lits(); if !has_amp(cmd.redirects_to@) { lemma_files_vs_redirs(base_out(idx_cmd as int, pipes_count as int, w.pobj, options.capture_output, w.cap_out), base_err(idx_cmd as int, pipes_count as int, options.capture_output, w.cap_err), Obj::Inherited(1), Obj::Inherited(2), cmd.redirects_to@, cmd.redirects_to@.len() as int); } } proof { chk_exec_only_0_1_2_open(*k); } proof { chk_stdin(*k, *cmd, idx_cmd as int, w); } proof { chk_stdout(*k, *cmd, idx_cmd as int, pipes_count as int, w, options.capture_output); } proof { chk_stderr(*k, *cmd, idx_cmd as int, pipes_count as int, w, options.capture_output); } proof { chk_stdout_carved(*k, *cmd, idx_cmd as int, pipes_count as int, w, options.capture_output); } proof { chk_stderr_carved(*k, *cmd, idx_cmd as int, pipes_count as int, w, options.capture_output); } vx_execve_region(cl, cmd, Tracked(k));', regex=True, balanced=True, required=False, rule='R10',
+       why='argv/envp CString construction (argv by the known idiom), PATH lookup (exit 127 when not found) and execve: one opaque region; its REQUIRES carry the C02/C04/C08 descriptor state'),
     Rw(r'let mut c_envs: Vec<_> = env::vars\(\)[\s\S]*?match execve\(&c_program, &c_args, &c_envs\) \{',
-       'proof { lemma_lits(); if !has_amp(cmd.redirects_to@) { lemma_files_vs_redirs(base_out(idx_cmd as int, pipes_count as int, w.pobj, options.capture_output, w.cap_out), base_err(idx_cmd as int, pipes_count as int, options.capture_output, w.cap_err), Obj::Inherited(1), Obj::Inherited(2), cmd.redirects_to@, cmd.redirects_to@.len() as int); } } proof { chk_exec_only_0_1_2_open(*k); } proof { chk_stdin(*k, *cmd, idx_cmd as int, w); } proof { chk_stdout(*k, *cmd, idx_cmd as int, pipes_count as int, w, options.capture_output); } proof { chk_stderr(*k, *cmd, idx_cmd as int, pipes_count as int, w, options.capture_output); } proof { chk_stdout_carved(*k, *cmd, idx_cmd as int, pipes_count as int, w, options.capture_output); } proof { chk_stderr_carved(*k, *cmd, idx_cmd as int, pipes_count as int, w, options.capture_output); } vx_execve_region(cl, cmd, Tracked(k));', regex=True, balanced=True, rule='R10',
-       why='argv/envp CString construction, PATH lookup (exit 127 when not found) and execve: one opaque region; its REQUIRES carries the C02/C04/C08 descriptor state'),
+       'proof { chk_argv(false); } proof { lemma_lits(); if !has_amp(cmd.redirects_to@) { lemma_files_vs_redirs(base_out(idx_cmd as int, pipes_count as int, w.pobj, options.capture_output, w.cap_out), base_err(idx_cmd as int, pipes_count as int, options.capture_output, w.cap_err), Obj::Inherited(1), Obj::Inherited(2), cmd.redirects_to@, cmd.redirects_to@.len() as int); } } proof { chk_exec_only_0_1_2_open(*k); } proof { chk_stdin(*k, *cmd, idx_cmd as int, w); } proof { chk_stdout(*k, *cmd, idx_cmd as int, pipes_count as int, w, options.capture_output); } proof { chk_stderr(*k, *cmd, idx_cmd as int, pipes_count as int, w, options.capture_output); } proof { chk_stdout_carved(*k, *cmd, idx_cmd as int, pipes_count as int, w, options.capture_output); } proof { chk_stderr_carved(*k, *cmd, idx_cmd as int, pipes_count as int, w, options.capture_output); } vx_execve_region(cl, cmd, Tracked(k));', regex=True, balanced=True, required=False, rule='R10',
+       why='as above, but argv is NOT built by the known idiom: its content is unknown'),
+    Rw('vx_execve_region(cl, cmd, Tracked(k));', 'vx_execve_region(cl, cmd, Tracked(k));', rule='R10', why='(anchor check: the exec region must have been found)'),
     Rw(r'\bunsafe\s*\{', '{', regex=True, required=False, rule='R14', why='unsafe marker removed; the operations inside are shims'),
     Rw('libc::getpid()', 'vx_getpid(Tracked(k))', required=False, rule='R8'),
     Rw(r'libc::setpgid\(', 'vx_setpgid(', regex=True, required=False, rule='R8'),
